@@ -32,6 +32,14 @@ Proof. intros Ho Hc [A B]. unfold slotted, idx, index_bad, slot_index in *. rewr
 Lemma completed_same s s' : cache s' = cache s -> completed s' = completed s.
 Proof. unfold completed. intros ->; auto. Qed.
 
+Lemma completed_set_tqueue s q : completed (set_tqueue s q) = completed s.
+Proof. reflexivity. Qed.
+Lemma completed_set_pend s q : completed (set_pend s q) = completed s.
+Proof. reflexivity. Qed.
+Lemma completed_set_lacks s q : completed (set_lacks s q) = completed s.
+Proof. reflexivity. Qed.
+Ltac csimp := simpl; rewrite ?completed_set_pend, ?completed_set_tqueue, ?completed_set_lacks.
+
 (* ---- resultSlots never over-estimates the room -------------------------------- *)
 Lemma filter_below_nil off (l : list header) :
   (forall h, In h l -> off <= h_num h) -> filter (below off) l = [].
@@ -131,24 +139,23 @@ Proof.
   assert (Hkeys : NoDup (map fst (pend s))) by apply (si_keys _ _ _ _ _ Hsi).
   assert (Hsort : sortedq (qpush_all skip (tqueue s'))) by (apply qpush_all_sorted; auto).
   destruct send as [|x send]; simpl.
-  - split; [|auto]. constructor; simpl.
-    + eapply Ufacts_same; eauto.
-    + eapply Cfacts_same; eauto.
-    + rewrite qpush_all_perm, <- C. rewrite Hp.
-      rewrite (perm_after_reserve (tqueue s') [] skip (flat (pend s)) (completed s')). simpl. rewrite Hp. auto.
+  - split; [|auto]. constructor; csimp.
+    + apply (Ufacts_same g U s'); auto.
+    + apply (Cfacts_same g U s'); auto.
+    + rewrite qpush_all_perm, <- C.
+      apply (perm_after_reserve (tqueue s') [] skip (flat (pend s')) (completed s')).
     + rewrite Hp; auto.
     + auto.
     + intros y Hy. apply (slotted_same s'); auto. apply E. simpl. rewrite in_app_iff. auto.
-  - split; [|repeat split; auto; discriminate]. constructor; simpl.
-    + eapply Ufacts_same; eauto.
-    + eapply Cfacts_same; eauto.
+  - split; [|repeat split; auto; try discriminate; try congruence]. constructor; csimp.
+    + apply (Ufacts_same g U s'); auto.
+    + apply (Cfacts_same g U s'); auto.
     + rewrite qpush_all_perm, <- C. unfold flat; simpl. fold (flat (pend s')).
       apply (perm_after_reserve (tqueue s') (x :: send) skip (flat (pend s')) (completed s')).
     + rewrite Hp. constructor; auto. apply pend_get_None; auto.
     + auto.
     + intros y Hy. apply (slotted_same s'); auto. apply E.
-      unfold flat in Hy; simpl in Hy. fold (flat (pend s')) in Hy.
-      rewrite !in_app_iff in *. simpl in Hy. rewrite in_app_iff in Hy. simpl. tauto.
+      unfold flat in *. simpl in *. rewrite !in_app_iff in *. tauto.
 Qed.
 
 (* ---- Deliver ------------------------------------------------------------------------ *)
@@ -217,14 +224,15 @@ Lemma deliver_loop_DJ g U hs : forall bs s acc s' rest acc' f,
   offset s' = offset s /\ head s' = head s.
 Proof.
   induction hs as [|h hs IH]; intros bs s acc s' rest acc' f J H; simpl in H.
-  - injection H as <- <- _ <-. repeat split; auto. discriminate.
-  - destruct bs as [|b bs]; [injection H as <- <- _ <-; repeat split; auto; discriminate|].
+  - injection H as <- <- _ <-. split; [exact J|split; [discriminate|repeat split; auto]].
+  - destruct bs as [|b bs]; [injection H as <- <- _ <-; split; [exact J|split; [discriminate|repeat split; auto]]|].
     destruct (dj_slotted _ _ _ _ J h (or_introl eq_refl)) as [Hb Hn]. fold (idx s h) in H. rewrite Hb in H.
     destruct (nth (idx s h) (cache s) None) as [r|] eqn:Hr; [|congruence].
-    destruct (negb (derive b =? h_root h)) eqn:Hd; [injection H as <- <- _ <-; repeat split; auto; discriminate|].
+    destruct (negb (derive b =? h_root h)) eqn:Hd;
+      [injection H as <- <- _ <-; split; [exact J|split; [discriminate|repeat split; auto]]|].
     apply negb_false_iff in Hd.
     destruct (accept_body_DJ _ _ _ _ _ _ J Hd) as [J2 _].
-    apply IH in H; auto. destruct H as (A & B & C & D & E & F & G). simpl in *. repeat split; auto.
+    apply IH in H; auto.
 Qed.
 
 Lemma deliver_SI g U p bs s :
@@ -236,7 +244,7 @@ Lemma deliver_SI g U p bs s :
 Proof.
   intros Hsi. unfold deliver.
   destruct (pend_get p (pend s)) as [hs|] eqn:Eg.
-  2:{ simpl. repeat split; auto; try discriminate.
+  2:{ simpl. split; [exact Hsi|]. split; [discriminate|]. split; [reflexivity|]. split; [|reflexivity].
       symmetry. apply pend_del_notin, pend_get_None; auto. }
   set (s0 := set_pend s (pend_del p (pend s))).
   set (s1 := match bs with
@@ -250,20 +258,20 @@ Proof.
   pose proof (pend_split p (pend s) hs D Eg) as Hsplit.
   assert (J : DJ g U s1 hs).
   { constructor.
-    - eapply Ufacts_same; eauto.
-    - eapply Cfacts_same; eauto.
-    - rewrite Q1, P1, (completed_same s1 s C1). rewrite <- C. apply Permutation_app_head.
+    - apply (Ufacts_same g U s); auto.
+    - apply (Cfacts_same g U s); auto.
+    - rewrite Q1, P1, (completed_same s s1 C1). rewrite <- C. apply Permutation_app_head.
       rewrite Hsplit. rewrite <- app_assoc. auto.
     - intros x Hx. apply (slotted_same s); auto. apply F.
-      rewrite P1, (completed_same s1 s C1) in Hx.
+      rewrite P1, (completed_same s s1 C1) in Hx.
       rewrite !in_app_iff in *. rewrite (perm_in_iff x _ _ Hsplit), in_app_iff. tauto. }
   destruct (deliver_loop derive hs bs s1 0) as [[[s2 rest] acc] f] eqn:El.
   apply (deliver_loop_DJ g U) in El; auto.
   destruct El as (J2 & Hf & Q2 & P2 & L2 & O2 & _). simpl.
   split; [|split; [|split; [|split]]].
-  - destruct J2 as [A2 B2 C2 D2]. constructor; simpl.
-    + eapply Ufacts_same; eauto.
-    + eapply Cfacts_same; eauto.
+  - destruct J2 as [A2 B2 C2 D2]. constructor; csimp.
+    + apply (Ufacts_same g U s2); auto.
+    + apply (Cfacts_same g U s2); auto.
     + rewrite qpush_all_perm, <- C2. rewrite <- !app_assoc. rewrite (app_assoc rest).
       rewrite (Permutation_app_comm rest (tqueue s2)). rewrite <- app_assoc. auto.
     + rewrite P2, P1. unfold pend_del. apply NoDup_map_filter; auto.
@@ -281,9 +289,9 @@ Lemma cancel_SI g U p hs s :
   SI g U s -> pend_get p (pend s) = Some hs -> SI g U (cancel p hs s).
 Proof.
   intros [A B C D E F] Eg. pose proof (pend_split p (pend s) hs D Eg) as Hsplit.
-  unfold cancel. constructor; simpl.
-  - eapply Ufacts_same; eauto.
-  - eapply Cfacts_same; eauto.
+  unfold cancel. constructor; csimp.
+  - apply (Ufacts_same g U s); auto.
+  - apply (Cfacts_same g U s); auto.
   - rewrite qpush_all_perm, <- C. rewrite Hsplit. rewrite <- !app_assoc.
     rewrite (app_assoc hs). rewrite (Permutation_app_comm hs (tqueue s)). rewrite <- app_assoc. auto.
   - unfold pend_del. apply NoDup_map_filter; auto.
@@ -302,9 +310,9 @@ Lemma expire_SI g U ps s : SI g U s -> SI g U (fst (expire ps s)).
 Proof.
   intros [A B C D E F]. unfold expire; simpl.
   pose proof (flat_filter_perm (fun kv => memN (fst kv) ps) (pend s)) as Hsplit.
-  constructor; simpl.
-  - eapply Ufacts_same; eauto.
-  - eapply Cfacts_same; eauto.
+  constructor; csimp.
+  - apply (Ufacts_same g U s); auto.
+  - apply (Cfacts_same g U s); auto.
   - rewrite fold_push_perm, <- C. rewrite Hsplit. rewrite <- !app_assoc.
     rewrite (app_assoc (flat (filter _ (pend s))) (tqueue s)).
     rewrite (Permutation_app_comm (flat (filter _ (pend s))) (tqueue s)). rewrite <- app_assoc. auto.
